@@ -16,6 +16,13 @@ propagation) as the oracle:
      iod_position       state_vector[:3] == true position at the second observation
      iod_velocity       state_vector[3:] == true velocity at the second observation
 
+Classifier (mechanism keys, from observed facts only): a refusal whose message is the single-pass test's gets
+``iod-single-pass-rejects-spacing-ge-0.354P`` when the spacing is at least (1/2)^1.5 of the circular period at the
+observed radius (= the period of an orbit with semi-major axis r/2, what ``checkSinglePass`` computes from a
+position-only vector) and ``iod-single-pass-rejected`` otherwise; a stored observation that the query does not
+return gets ``iod-stored-observation-not-found``; solver keys carry the solver name and what failed
+(``-raises``, ``-nonfinite``, ``-wrong-way``, ``-velocity``, ``-closure``).
+
 Tolerances (DESIGN 3.7) follow the conditioning: the state-transition matrix of the *true* arc is obtained
 from keplerref by central differences and multiplies the calibrated per-solver velocity budget / the Julian-date
 time resolution.  Every check also files ``log10(error / tolerance)`` into ``coverage.margin.*`` decades.
@@ -57,7 +64,7 @@ ASSUME = ["refs/keplerref.py (eccentric-anomaly-difference f and g propagation) 
           "budget + |dv2/dr| * inversion tolerance; observation epochs are whole seconds (julianDateToDatetime rounds to whole seconds)",
           "IOD lower query bound (detection time) is kept >= 1 s before the stored observation (equality would be decided by one ulp of a Julian date)"]
 SHARDS = {"quick": 4, "thorough": 16}
-BUDGET_S = {"quick": 90, "thorough": 1200}
+BUDGET_S = {"quick": 60, "thorough": 560}
 DECIDING = ["lambert_closure", "lambert_velocity", "lambert_sense", "radar_inversion", "iod_converged", "iod_position", "iod_velocity"]
 MANIFEST = {
     "technique": "runtime monitoring: direct drive of lambertUniversal/lambertBattin, radarObs2eciPosition on real Observation objects and "
